@@ -15,7 +15,7 @@ RULE = ('reactions assembled from generated molecules (1-3 reactant molecules, 0
         'roles may be empty; molecules inside a role are permuted and both sides renumbered consistently. oracles: str(reaction) '
         'invariant under role-internal order and renumbering; SMILES (plain and mapped) reads back to the same roles/molecules; '
         'condensed graph centre atoms and every (order, p_order)/(charge, p_charge)/(radical, p_radical) equal the ground truth; '
-        'identical sides have no centre; str(condensed graph) invariant. non-trivial = >= 1 edit and >= 2 molecules in a role; '
+        'contract_ions() / remove_reagents() on a reaction with warm caches against a fresh reaction with the same roles. identical sides have no centre; str(condensed graph) invariant. non-trivial = >= 1 edit and >= 2 molecules in a role; '
         'distinct by mapped reaction string')
 ASSUMPTIONS = ['molecules are built through the public API from plain graphs computed by the check (own component split)',
                'canonical molecule strings are used to compare role contents (their invariance is C01\'s subject; C01 gaps are skipped)']
